@@ -175,7 +175,7 @@ theorem accepts_seq (a b : RE) (s : Str) :
           simp at h
           obtain ⟨rfl, rfl⟩ := h
           exact ⟨t1, s2, rfl, by simpa using h1, h2⟩
-    · simp only [hn, ih]
+    · simp only [hn]
       simp only [Bool.false_eq_true, if_false, ih]
       constructor
       · rintro ⟨t1, t2, h, h1, h2⟩
